@@ -50,6 +50,9 @@ type Embedder struct {
 	Extra string
 }
 
+// Slot takes an unsigned parameter: negative and oversized numbers cannot be used.
+func (p Person) Slot(n uint8) string { return "slot:" + strconv.Itoa(int(n)) }
+
 // OnlyStringer implements exactly fmt.Stringer.
 type OnlyStringer struct{ S string }
 
